@@ -202,13 +202,15 @@ func newBackoffFn(base, cap, jitter int) backoffFn {
 			lastSleep = sleep
 			return realSleep
 		}
+		start := time.Now()
 		select {
 		case <-time.After(time.Duration(realSleep) * time.Millisecond):
 			attempts++
 			lastSleep = sleep
 			return realSleep
 		case <-ctx.Done():
-			return 0
+			// Account for the part of the sleep that did take place.
+			return int(time.Since(start) / time.Millisecond)
 		}
 	}
 }
